@@ -128,10 +128,12 @@ def frames_equal(got, exp, check_index=True, check_categories=True, check_dtype=
                 return ("categories", "column %r: categories %r vs %r" % (gc[pos], categories_of(g), categories_of(e)))
     if check_index:
         gi, ei = got.index, exp.index
-        if is_default_range(gi) and is_default_range(ei):
+        if is_default_range(gi) and is_default_range(ei) and gi.name is None and ei.name is None:
             return None
-        if is_default_range(gi) != is_default_range(ei):
-            return ("index_kind", "index %s vs %s" % (type(gi).__name__, type(ei).__name__))
+        if (is_default_range(gi) and gi.name is None) != (is_default_range(ei) and ei.name is None):
+            return ("index_kind", "index %s(name=%r) vs %s(name=%r)" % (type(gi).__name__, gi.name, type(ei).__name__, ei.name))
+        if is_default_range(gi) or is_default_range(ei):
+            check_dtype = False   # pandas may turn a named integer column into a RangeIndex: compare values
         if list(gi.names) != list(ei.names):
             return ("index_name", "index names %r vs %r" % (list(gi.names), list(ei.names)))
         if isinstance(gi, pd.MultiIndex) or isinstance(ei, pd.MultiIndex):
